@@ -445,7 +445,14 @@ func runSPH(t *testing.T, ksc KScenario, res *KResult) {
 		if cw := h.congestion.GetCongestionWindow(); cw < cwndBefore {
 			res.Probe("cwnd-reduced")
 			if sp == 2 && !alive[0] && !alive[1] && lastCutOrd >= 0 && ackOrd <= lastCutOrd && !migrated {
-				res.Fail("congestion window reduced twice for packets of one window (every packet the ACK concerns was sent before the previous reduction)", "cwnd %d -> %d; newest packet concerned has send ordinal %d, previous reduction happened after ordinal %d", cwndBefore, cw, ackOrd, lastCutOrd)
+				sig := "congestion window reduced twice for packets of one window (every packet the ACK concerns was sent before the previous reduction)"
+				for _, p := range sent[sp] {
+					if p.pn == ranges[0].Largest && !p.ackElic {
+						// the sender's recovery guard compares with the largest ack-eliciting number sent at the last reduction
+						sig += ": the largest acknowledged packet is not ack-eliciting"
+					}
+				}
+				res.Fail(sig, "cwnd %d -> %d; newest packet concerned has send ordinal %d, previous reduction happened after ordinal %d; ECN-CE count in this ACK %d", cwndBefore, cw, ackOrd, lastCutOrd, ack.ECNCE)
 			}
 			// (a reduction that happened while other number spaces existed is not a usable reference:
 			// the sender's guard compares packet numbers, which are only comparable within one space)
